@@ -227,6 +227,29 @@ class IdIndex(Index):
         elif operation == "delete":
             txn.delete(self.to_key(event.id))
 
+    @contextmanager
+    def scanner(
+        self,
+        txn,
+        matches: list,
+        since: typing.Optional[int] = None,
+        until: typing.Optional[int] = None,
+        events=FakeContainer(),
+    ):
+        # id keys carry no timestamp: look the ids up directly
+        # since/until are checked by the matcher
+        def iterator():
+            for match in matches:
+                try:
+                    key = self.to_key(match)
+                except ValueError:
+                    continue
+                event_id = key[1:]
+                if txn.get(key) is not None and event_id in events:
+                    yield event_id
+
+        yield iterator()
+
 
 class CreatedIndex(Index):
     prefix = b"\x01"
